@@ -44,8 +44,10 @@ func sigClass(sig string) string {
 	switch p[0] {
 	case "F1":
 		return strings.Join(p[:len(p)-1], "/") // drop operand source
-	case "F2":
+	case "F2", "F2L":
 		return p[0] + "/" + p[1]
+	case "F4c":
+		return p[0] + "/" + p[1] // composition signature without operand source
 	case "F5":
 		if len(p) >= 3 {
 			return p[0] + "/" + p[1] + "/" + p[2]
@@ -106,9 +108,9 @@ func printKeys(r *explore.Run) {
 // families used by most program-space checks.
 func quickFamilies(r *explore.Run) []*wgen.Family {
 	if r.Thorough() {
-		return []*wgen.Family{wgen.F1(), wgen.F2(3, false), wgen.F2(5, true), wgen.F2L(3, false), wgen.F2L(4, true)}
+		return []*wgen.Family{wgen.F1(), wgen.F2(3, false), wgen.F2(5, true), wgen.F2L(3, false), wgen.F2L(4, true), wgen.F4c(true)}
 	}
-	return []*wgen.Family{wgen.F1(), wgen.F2(2, false), wgen.F2(4, true), wgen.F2L(2, false), wgen.F2L(3, true)}
+	return []*wgen.Family{wgen.F1(), wgen.F2(2, false), wgen.F2(4, true), wgen.F2L(2, false), wgen.F2L(3, true), wgen.F4c(false)}
 }
 
 // prog is one program presented to a per-program check.
@@ -147,6 +149,10 @@ func familyByName(name string) *wgen.Family {
 		return wgen.F15Zero()
 	case "F4idx":
 		return wgen.F4Idx()
+	case "F4c":
+		return wgen.F4c(false)
+	case "F4call":
+		return wgen.F4c(true)
 	case "F15idx":
 		return wgen.F15Idx()
 	}
